@@ -42,8 +42,6 @@ pub broadcast axiom fn ax_slice_len<T>(s: &[T])
 // trusted prelude
 // ---------------------------------------------------------------------------------------------
 
-pub assume_specification<T> [core::mem::replace::<T>] (dest: &mut T, src: T) -> (r: T)
-    ensures r == *old(dest), *final(dest) == src;
 
 // R-unchecked: `x.get_unchecked(i)` is rewritten to `get_unchecked_(x, i)`; the bound becomes a
 // proof obligation at every call site ("never reads or writes outside the backing slice").
